@@ -21,7 +21,7 @@ RULE = ("case = seeded history (0..2 fault-free base sessions, then one create/a
 ASSUMPTIONS = [
     "a crash leaves a prefix of the device-level write stream (optionally with one of the last writes missing); sector tearing inside a single byte is not modelled",
     "ref7z (independent reader) and the codec libraries are trusted",
-    "an image on which py7zr spins (step budget) is handed to C05 and not counted here",
+    "an image on which py7zr exceeds the step budget is re-read with 20 x the budget; only then it counts as a hang (open_never_returns)",
 ]
 COMPONENTS = {"real": ["py7zr SevenZipFile writer and reader", "CPython io.BufferedRandom", "codec libraries"],
               "stub": ["raw device (SimRaw)", "clock", "AES IV randomness", "block-size knob"]}
@@ -85,6 +85,14 @@ def gen_case(rng: Rng, i: int, tier: str):
         base.append(s)
     mode = "a" if nbase else r.pick(["w", "w", "x", "a"])
     sess = rw.gen_session(r, mode, knobs, used, nmax=3, maxlen=maxlen, password=password)
+    rt = rng.sub("torn")
+    if base and sess["ops"] and rt.chance(0.3):
+        # directed: the appended data starts with an incompressible member (stored by LZMA2 as an uncompressed chunk) and lands
+        # on a packed header: a few bytes into the first write the old header descriptor points at a stream that decodes
+        # neither to an end nor to an error by itself
+        base[-1]["header"] = "enc"
+        sess["chain"] = rt.pick([None, None, [{"id": "LZMA2", "preset": 1}], [{"id": "COPY"}]])
+        sess["ops"][0]["content"] = {"tex": "rand", "len": rt.randint(150, 500), "seed": rt.randrange(1 << 30)}
     return {"base": base, "session": sess, "target": r.wpick([(3, "path"), (3, "stream"), (2, "bufobj")]), "knobs": knobs,
             "rng": r.randrange(1 << 30)}
 
@@ -170,9 +178,24 @@ def run_case(case):
                         label, len(img), r.names, [[n for n, _ in m] for m in accept]),
                     "sub": list(label)})
         except StepBudgetExceeded:
-            outcome = "spin"
+            # neither an error nor a member list: confirmed with twenty times the budget before it is called a hang
             res["sim_steps"] += budget
-            res["probes"]["spin_handed_to_C05"] = res["probes"].get("spin_handed_to_C05", 0) + 1
+            try:
+                with StepCounter(20 * budget) as sc2:
+                    rw.read_image(img, password=password, kind="stream")
+                res["sim_steps"] += sc2.steps
+                outcome = "slow"
+                res["extra"]["slow_reads_over_budget"] = res["extra"].get("slow_reads_over_budget", 0) + 1
+            except StepBudgetExceeded as sbe:
+                outcome = "spin"
+                res["sim_steps"] += 20 * budget
+                res["violations"].append({
+                    "fp": {"oracle": "open_never_returns", "site": "py7zr", "class": {"mode": case["session"]["mode"], "variant": kind}},
+                    "detail": "crash image %r (%d bytes): opening it neither fails nor lists members within %d steps (20 x the budget), last at %s" % (
+                        label, len(img), 20 * budget, sbe.args[1] if len(sbe.args) > 1 else "?"),
+                    "sub": list(label)})
+                log.append((label, outcome, None))
+                break  # one confirmed hang per case is enough; every further image would cost 20 budgets again
         # --- reference reader
         ro = None
         try:
@@ -194,7 +217,7 @@ def run_case(case):
         log.append((label, outcome, ro))
     # the completed session must have been observed as a correct state
     res["probes"].setdefault("accepted_complete_state", 0)
-    res["extra"].setdefault("spin_handed_to_C05", 0)
+    res["extra"].setdefault("slow_reads_over_budget", 0)
     res["probes"]["directed_header_hijack"] = 1 if case.get("directed") else 0
     res["distinct_n"] = n_inside
     res["digest"] = digest_of([final, log])
